@@ -82,8 +82,9 @@ pub open spec fn options_ok(out: Output, args: Args, game: Game) -> bool {
 pub open spec fn utilities_ok(out: Output, args: Args, game: Game, sum: f64) -> bool {
     let inf = info_spec(chosen_of(args, game));
     // each player's OWN payoff: the zero-sum utility plus half the constant the payoffs add up to
-    out.player_one_utility == fadd(util_of(inf, PlayerNum::One), sum)
-    && out.player_two_utility == fadd(util_of(inf, PlayerNum::Two), sum)
+    // (stated on the real values, so that `sum + u` and `u + sum` are the same thing)
+    rv(out.player_one_utility) == rv(util_of(inf, PlayerNum::One)) + rv(sum)
+    && rv(out.player_two_utility) == rv(util_of(inf, PlayerNum::Two)) + rv(sum)
 }
 #[verifier::external_body]
 pub fn __abs_print(out: &Output, args: &Args, game: &Game, sum: f64)
@@ -98,12 +99,12 @@ pub fn __abs_print(out: &Output, args: &Args, game: &Game, sum: f64)
 """
 UNIT = dict(
     id="c16_main_slice",
-    prelude=["floats.rs"],
-    canary_use="broadcast use fl; ax_obeys();",
+    prelude=["floats.rs", "ideal.rs"],
+    canary_use="broadcast use fl; broadcast use ideal; ax_obeys(); ax_rv_lits();",
     assumptions=[
         "R6 slice of the binary's main(): argument parsing (clap), reading / format detection, and the final serde_json write are abstracted; everything in between -- budget 0 = unlimited, method and discount mapping, the call of Game::solve, the clip-threshold comparison, the assembly of the Output record -- is kept verbatim; the library calls are uninterpreted functions of ALL their arguments and the obligation is the precondition of the print stub",
         "Game::solve is assumed to succeed (the CLI unwraps it: a solver error is a panic, C17's business)",
-        "uninterpreted floats: `+`, `-`, `<` are the same functions in the contract and the code",
+        "floats: `<` uninterpreted (with the IEEE flip facts), the two utility sums in idealised reals so that a commuted operand order is the same value",
         "struct Args is the extracted text with its clap attributes dropped (R0)",
     ],
     items=[
@@ -128,7 +129,7 @@ UNIT = dict(
              body_subst=[(r"let \[one, two\] = strategies\.as_named\(\);", "let __named = strategies.as_named(); let one = __named[0]; let two = __named[1];", "R3 array pattern on a call result (the stand-in view type is Copy)"),
                          (r"player_one_strategy: one\.into\(\),", "player_one_strategy: __to_strategy(one),", "R5 From<NamedStrategyIter> for Strategy bound"),
                          (r"player_two_strategy: two\.into\(\),", "player_two_strategy: __to_strategy(two),", "R5 idem")],
-             entry="broadcast use fl;\nproof { ax_obeys(); }"),
+             entry="broadcast use fl; broadcast use ideal;\nproof { ax_obeys(); ax_rv_lits(); }"),
         dict(file="src/main.rs", path="impl From for Strategy / fn from", closure=0, expr_closure=True,
              header_re=r"^\|\(_, p\)\|$", as_fn="strategy_from__printed_action", generics="<N: Borrow<f64>>",
              params="p: &N", ret="out", ret_type="bool",
